@@ -980,10 +980,14 @@ def interpolation_constants(ctx, env, rng, kind):
             ws = w if spell == "lower" else (w.upper() if spell == "UPPER" else w.capitalize()) if w is not None else None
             dim = rng.choice([1, 1, 3, 2])
             if dim == 1:
-                c = rng.choice([1.0, -2.5, 1e-3, 7e4, rng.uniform(-10, 10)])
+                c = rng.choice([1.0, -2.5, 1e-3, 7e4, 0.0, rng.uniform(-10, 10)])  # the constant 0 is a constant too
                 cval = c
             else:
                 cval = [rng.uniform(-5, 5) for _ in range(dim)]
+                if rng.random() < 0.15:
+                    cval = [0.0] * dim  # the null vector
+                elif rng.random() < 0.15:
+                    cval[rng.randrange(dim)] = 0.0
             in_storage = rng.choice(["dense", "sparse", "sparse_default"] if dim == 1 else ["dense", "sparse"])
             out_storage = rng.choice(["dense", "sparse"])
             in_on_mesh = rng.random() < 0.5
